@@ -284,6 +284,10 @@ def api_calls(version, vlevel):
 
 
 TYPED_ALPHA = ["f", "c", ",", ".", "-", "1", "e", "{", "[", "A", "+"]
+RESERVED_NAMES = ["_data", "_datatype", "_gfa", "_refs", "_vlevel", "get",
+                  "set", "name", "vlevel", "version", "virtual", "gfa",
+                  "record_type", "tagnames", "validate", "__class__",
+                  "__dict__", "try_get_xx", "x" * 1000]
 
 
 def work_api(item):
@@ -294,8 +298,14 @@ def work_api(item):
   name, fn = menu[name_idx]
   n = 0
   alpha = TYPED_ALPHA if name.startswith("set-typed-") else API_ALPHA
-  # (the two-step programs: strings of length <= 2)
-  for s in enumstr.all_strings(alpha, 2 if ";" in name else 3):
+  # (the two-step programs: strings of length <= 2); entries that take a
+  # field or tag NAME also get names that are attributes of a line object
+  strings = list(enumstr.all_strings(alpha, 2 if ";" in name else 3))
+  if name in ("get", "try_get", "delete", "get_datatype", "field_to_s",
+              "validate_field", "set-name", "set_datatype-name",
+              "header-set"):
+    strings += RESERVED_NAMES
+  for s in strings:
     n += 1
     res["evaluations"] += 1
     try:
@@ -330,6 +340,15 @@ def extreme_cases():
             ("line", "L\tA\t+\tB\t+\t" + v + "M", "gfa1"),
             ("line", "E\te\ta+\tb+\t0\t" + v + "\t0\t5\t" + v + "M", "gfa2"),
             ("line", "E\te\ta+\tb+\t0\t5\t0\t5\t1," + v, "gfa2"),
+            # one extreme field at a time (an earlier field that is refused
+            # first would hide the later one)
+            ("line", "E\te\ta+\tb+\t0\t5\t0\t5\t" + v + "M", "gfa2"),
+            ("line", "E\te\ta+\tb+\t0\t5\t0\t" + v + "\t*", "gfa2"),
+            ("line", "F\ta\tx+\t0\t5\t0\t5\t" + v + "M", "gfa2"),
+            ("line", "F\ta\tx+\t0\t5\t0\t5\t" + v, "gfa2"),
+            ("line", "C\tA\t+\tB\t+\t0\t" + v + "M", "gfa1"),
+            ("line", "P\tp\tA+,B+\t" + v + "M", "gfa1"),
+            ("line", "G\tg\ta+\tb+\t5\t" + v, "gfa2"),
             ("line", "G\tg\ta+\tb+\t" + v + "\t" + v, "gfa2"),
             ("line", "S\t" + v + "\t*", "gfa1"), ("line", "S\tA\t*\txx:H:" + v, "gfa1")]
   out += [("line", "S\tA\t*\txx:J:" + deep, "gfa1"),
